@@ -74,7 +74,7 @@ ProbeOpt(codes) ==
 \* refusals that must surface as the documented failure value: every OS call except munmap / close / free
 \* (e.calls lists the OS calls the library made, one letter each: a malloc b mmap c mremap d munmap e open f fstat
 \*  g read h close i fopen j fwrite k fclose l free)
-MustReport == armed \notin {"munmap", "close", "free", ""}
+MustReport == armed \notin {"munmap", "close", "close-eintr", "free", ""}
 
 TwinDiffers(e) == e.twin.ret # e.ret \/ e.twin.off1 # e.off1 \/ e.twin.dest # e.dest \/ (e.twin.outok /\ e.outok /\ e.twin.out # e.out)
 
